@@ -22,7 +22,7 @@ LEVEL_TEXT = ("Seeded stateful exploration of log-edit histories on really simul
               "and the insert/remove round trip are checked after every operation.")
 LEVEL_NOTE = "Trusted: log_lengths() enumerates every per-step log attribute of the model; sampling evidence only."
 PROBES = ["op_insert", "op_remove", "insert_step0", "insert_beyond_end", "insert_duplicate_in_list", "insert_already_present",
-          "roundtrip_checked", "multi_insert_roundtrip_checked", "with_subproject_task", "with_facilities", "remove_with_beyond_end"]
+          "roundtrip_checked", "multi_insert_roundtrip_checked", "with_subproject_task", "with_facilities", "remove_with_beyond_end", "result_of_backward_simulation"]
 
 
 def budget(tier):
@@ -69,10 +69,16 @@ def gen(rng, tier):
         else:
             ops.append({"op": "insert", "steps": gen_idx(rng, n_guess)})
     spec["ops"] = ops
+    if rng.random() < 0.15:
+        spec["backward"] = {"due": rng.random() < 0.3, "reverse": rng.random() < 0.8}  # the edited result comes from a backward simulation
     return spec
 
 
 def extra_candidates(spec):
+    if spec.get("backward") is not None:
+        c = dict(spec)
+        c.pop("backward")
+        yield c
     ops = spec.get("ops", [])
     for i in range(len(ops)):
         c = dict(spec)
@@ -141,7 +147,11 @@ def run(spec):
     if spec.get("sub") is not None:
         scen.configure_subtasks(b, spec["model"])
     p = b.project
-    rec, out = scen.simulate(p, spec["cfg"], want_snap=False)
+    if spec.get("backward") is not None:
+        res.count("result_of_backward_simulation")
+        rec, out = scen.simulate(p, spec["cfg"], want_snap=False, backward=spec["backward"])
+    else:
+        rec, out = scen.simulate(p, spec["cfg"], want_snap=False)
     res.steps = rec.n_recorded
     ix = D.index(p)
     if ix.facs:
